@@ -29,6 +29,18 @@ claim('C19',
       'TLA+ spec (Reservoir.tla, Counters.tla) + TLC exhaustive/simulation + trace validation of recorded executions',
       'DESIGN.md 3/C19')
 
+claim('C06',
+      'TLC model-checks Dispatch.tla: the dispatch loop (one action per branch of Application.dispatch, DispatchState as '
+      'variables) is proved equal to the declarative Answer() - first match in add() order, method admission incl. HEAD-via-GET '
+      'and case-insensitivity, non-breaking fall-through, 404/405 with exact Allow - for every table, add history and request '
+      'within the bound (exhaustive <= 2-3 routes, simulation <= 4). Bound to the code: TLC-emitted add() histories are replayed '
+      'into real Applications and all 42 catalogue requests compared with Answer(); random larger tables over generated '
+      'patterns are recorded and validated by TLC (Dispatch_Trace).',
+      'Trusted: TLC; werkzeug test client; marker extraction from bodies; Allow compared modulo implicit HEAD. Patterns restricted '
+      'to the untyped segment semantics of PathMatch.tla (types and slashes are C05/C07).',
+      'TLA+ spec (Dispatch.tla) + TLC exhaustive/simulation + replay of TLC behaviours + record validation (Dispatch_Trace.tla)',
+      'DESIGN.md 3/C06')
+
 ALL = ['C%02d' % i for i in range(1, 21)]
 
 
